@@ -46,7 +46,7 @@ func TestCheck(t *testing.T) {
 		rep.Require("typed_ref_undefined_"+hz, 3)
 	}
 	n := int64(cfg.Pick(300, 400))
-	nTyped := int64(cfg.Pick(500, 2500))
+	nTyped := int64(cfg.Pick(500, 2000))
 	rep.Cases(n+nTyped, func(idx int64, rng *mon.Rand) {
 		if idx < n && os.Getenv("C04_TYPED_ONLY") != "" {
 			return // debugging aid: skip the gspec workload
